@@ -149,6 +149,26 @@ def build_records(quick: bool, seed: int, repo: str) -> list[dict[str, Any]]:
                 leftover = len([k for k in body3.get('metadata', {}).get('annotations', {}) if k in own_keys])
                 recs.append({'kind': 'purge', 'storage': sname + ('+drs' if drs else ''), 'id': cps(i), 'fetched_after': enc(pst.fetch(key=i, body=B3)),
                              'others_before': enc(others(body2)), 'others_after': enc(others(body3)), 'leftover': leftover})
+    # several operations on one patch for one id; the object may already carry one of the records
+    for sname, (pst, dst, prefix) in storages().items():
+        for i in ['fn', 'a' * 64, 'fn/sub']:
+            for drs in (False, True):
+                for pre, ops in itertools.product([None, 0, 1], [['purge', 0], ['purge', 1], [1, 0], [0, 1, 0], ['purge', 0, 'purge'], [0, 'purge', 0], [1, 'purge', 1]]):
+                    base = {'metadata': {'name': 'o', 'annotations': {'user': 'u'}}, 'status': {'user': 1}}
+                    if drs:
+                        base['kind'] = 'ReplicaSet'; base['metadata']['ownerReferences'] = [{'kind': 'Deployment', 'name': 'd'}]
+                    body = base
+                    if pre is not None:        # the record is on the object already
+                        p0 = patches.Patch(); pst.store(key=i, record=record_variants[pre], body=bodies.Body(copy.deepcopy(base)), patch=p0); pst.flush()
+                        body = merge_patch(base, json.loads(json.dumps(dict(p0))))
+                    p = patches.Patch(); B = bodies.Body(copy.deepcopy(body)); expected = None if pre is None else dict(record_variants[pre])
+                    for op in ops:
+                        if op == 'purge': pst.purge(key=i, body=B, patch=p); expected = None
+                        else: pst.store(key=i, record=record_variants[op], body=B, patch=p); expected = dict(record_variants[op])
+                    pst.flush()
+                    after = merge_patch(body, json.loads(json.dumps(dict(p))))
+                    recs.append({'kind': 'sequence', 'storage': sname + ('+drs' if drs else ''), 'id': cps(i), 'ops': [str(o) for o in ops], 'pre': -1 if pre is None else pre,
+                                 'fetched': enc(pst.fetch(key=i, body=bodies.Body(copy.deepcopy(after)))), 'expected': enc(expected)})
     return recs
 
 
